@@ -1,6 +1,7 @@
 import PharmpyModel.Core.Expr
 import PharmpyModel.C13.Reader
 import PharmpyModel.C13.ModelLevel
+import PharmpyModel.C13.History
 /-
   Helper lemmas for C13 (core Lean only).
 -/
@@ -1093,6 +1094,123 @@ theorem takeSign_suffix (s : Str) : ∃ p, s = p ++ (takeSign s).2 := by
       · exact ⟨[c], by simp [takeSign, h2]⟩
       · exact ⟨[], by simp [takeSign, h1, h2]⟩
 
+
+
+
+/-! ### a rendered row is read back -/
+
+theorem plain_props (c : Char) (h : isPlain c = true) : c ≠ ' ' ∧ isDelim c = false ∧ isPyWs c = false := by
+  simp only [isPlain, Bool.and_eq_true, Bool.not_eq_true', decide_eq_false_iff_not] at h
+  obtain ⟨h1, h2⟩ := h
+  have hws := h1
+  simp only [isPyWs, Bool.or_eq_false_iff, decide_eq_false_iff_not] at h1
+  refine ⟨h1.1.1.1.1.1.1.1.1.1, ?_, hws⟩
+  simp [isDelim, h2, h1.1.1.1.1.1.1.1.1.2]
+
+theorem tok_item_word (w : Str) (hw : ∀ c ∈ w, isPlain c = true) : tok .item w = [w] := by
+  induction w with
+  | nil => simp [tok]
+  | cons c r ih =>
+    obtain ⟨h1, h2, _⟩ := plain_props c (hw c (by simp))
+    simp [tok, h1, h2, ih (fun x hx => hw x (by simp [hx])), consHead]
+
+theorem tok_item_word_comma (w rest : Str) (hw : ∀ c ∈ w, isPlain c = true) :
+    tok .item (w ++ ',' :: rest) = w :: tok .delim rest := by
+  induction w with
+  | nil => simp [tok, isDelim]
+  | cons c r ih =>
+    obtain ⟨h1, h2, _⟩ := plain_props c (hw c (by simp))
+    simp [tok, h1, h2, ih (fun x hx => hw x (by simp [hx])), consHead]
+
+theorem joinWith_head (y : Str) (ys : List Str) (c : Char) (cs : Str) (hc : y = c :: cs) :
+    ∃ t, joinWith ',' (y :: ys) = c :: t := by
+  cases ys with
+  | nil => exact ⟨cs, by simp [joinWith, hc]⟩
+  | cons z zs => exact ⟨cs ++ ',' :: joinWith ',' (z :: zs), by simp [joinWith, hc]⟩
+
+/-- the documented tokenizer reads a comma-joined row of plain items back as those items -/
+theorem tok_join (items : List Str) (hne : items ≠ [])
+    (hp : ∀ w ∈ items, w ≠ [] ∧ ∀ c ∈ w, isPlain c = true) :
+    tok .item (joinWith ',' items) = items := by
+  induction items with
+  | nil => exact absurd rfl hne
+  | cons x xs ih =>
+    cases xs with
+    | nil => simp [joinWith, tok_item_word x (hp x (by simp)).2]
+    | cons y ys =>
+      have hx := (hp x (by simp)).2
+      have ihy := ih (by simp) (fun w hw => hp w (by simp [hw]))
+      simp only [joinWith]
+      rw [tok_item_word_comma x _ hx]
+      have hy := hp y (by simp)
+      obtain ⟨c, cs, hc⟩ := List.exists_cons_of_ne_nil hy.1
+      have hcp := (plain_props c (hy.2 c (by rw [hc]; simp))).1
+      obtain ⟨t, ht⟩ := joinWith_head y ys c cs hc
+      have hhead : ∀ r, joinWith ',' (y :: ys) ≠ ' ' :: r := by
+        intro r e
+        rw [ht] at e
+        injection e with e1 _
+        exact hcp e1
+      rw [tok_delim_eq_item _ hhead, ihy]
+
+
+/-- `split_matches_rules`, restated here for the lemma file -/
+theorem split_matches_rules_aux (l : Str) (h1 : noSpTab l = true) (h2 : edgeOk l = true) :
+    lineItems l = specItems l := by
+  unfold lineItems specItems reSplit
+  rw [pyStrip_eq_spStrip h2, tok_lead_spStrip l, tok_lead_eq_item _ (spStrip_no_space_head l)]
+  exact split_eq_tok_item _ _ (Nat.le_refl _) (noSpTab_spStrip h1) (noTrailSp_spStrip l)
+
+theorem joinWith_chars (items : List Str) (hp : ∀ w ∈ items, ∀ c ∈ w, isPlain c = true) :
+    ∀ c ∈ joinWith ',' items, isPlain c = true ∨ c = ',' := by
+  induction items with
+  | nil => simp [joinWith]
+  | cons x xs ih =>
+    cases xs with
+    | nil => intro c hc; simp only [joinWith] at hc; exact Or.inl (hp x (by simp) c hc)
+    | cons y ys =>
+      intro c hc
+      simp only [joinWith, List.mem_append, List.mem_cons] at hc
+      rcases hc with h | h | h
+      · exact Or.inl (hp x (by simp) c h)
+      · exact Or.inr h
+      · exact ih (fun w hw => hp w (by simp [hw])) c h
+
+theorem joinWith_last (items : List Str) (hne : items ≠ [])
+    (hp : ∀ w ∈ items, w ≠ [] ∧ ∀ c ∈ w, isPlain c = true) :
+    ∃ t c, joinWith ',' items = t ++ [c] ∧ isPlain c = true := by
+  induction items with
+  | nil => exact absurd rfl hne
+  | cons x xs ih =>
+    cases xs with
+    | nil =>
+      have hx := hp x (by simp)
+      have hr : x.reverse ≠ [] := by simpa using hx.1
+      obtain ⟨c, t, hc⟩ := List.exists_cons_of_ne_nil hr
+      have hxe : x = t.reverse ++ [c] := by
+        have := congrArg List.reverse hc
+        simpa using this
+      refine ⟨t.reverse, c, by simp [joinWith, hxe], hx.2 c (by rw [hxe]; simp)⟩
+    | cons y ys =>
+      obtain ⟨t, c, ht, hc⟩ := ih (by simp) (fun w hw => hp w (by simp [hw]))
+      exact ⟨x ++ ',' :: t, c, by simp [joinWith, ht], hc⟩
+
+theorem noSpTab_of_no_space (l : Str) (h : ∀ c ∈ l, c ≠ ' ') : noSpTab l = true := by
+  induction l with
+  | nil => rfl
+  | cons c r ih =>
+    have hc : c ≠ ' ' := h c (by simp)
+    have := ih (fun x hx => h x (by simp [hx]))
+    cases r with
+    | nil => simp [noSpTab]
+    | cons d t =>
+      rw [noSpTab, this]
+      simp [hc]
+
+theorem dropSp_of_no_space (l : Str) (h : ∀ c ∈ l, c ≠ ' ') : dropSp l = l := by
+  cases l with
+  | nil => rfl
+  | cons c r => exact dropSp_idem_of_head (h c (by simp))
 
 
 end Pharmpy.C13
